@@ -54,7 +54,8 @@ BOUNDS = {
         "assignments (|dF| <= 10). K-orthogonal: C(2,2), C(3,2), Tensor 2x2, Tensor 3x2, 1-d grids x {I,diag,hetdiag} x "
         "all assignments. Periodic letters (both parts): Tensor 2x2 /per-x, /per-y, Tensor 3x2 /per-x, /per-xy, C(3,3) /per-y, "
         "Tensor 2x2 /per-y scaled 1e-3. Scale axis: C(2,2)~ *1e-3, T(2,2) *1e3, Tensor 2x2 *1e-3, C(3,2) *1e3 (structural), "
-        "Tensor 2x2 *1e-3, C(2,2) *1e3 (K-orthogonal). Purity digest on every evaluation, reuse on every 4th assignment."
+        "Tensor 2x2 *1e-3, C(2,2) *1e3 (K-orthogonal). Purity digest on every evaluation, reuse on every 4th assignment. 3-d (side-wise U single flips): "
+        "C(2,2,2), C(2,2,2)@shear, Tensor 2x2x2 uneven, Prism(1,1; 2 layers) structural; C(2,2,2), Tensor 2x2x2 K-orthogonal."
     ),
     "thorough": (
         "quick + 3-d tensor grid periodic in z / in x and y + C(3,3) (all 4096), 3-d: Tet(1,1,1) (all 4096, 2 node patterns), Tet(2,1,1), C(2,2,2) under "
@@ -77,13 +78,13 @@ L1N = {"kind": "Tensor", "coords": [[0, 1, 3, 3.5]]}
 
 
 def _dim(spec):
-    return len(spec["coords"]) if spec["kind"] == "Tensor" else len(spec["n"])
+    return len(spec["coords"]) if spec["kind"] == "Tensor" else (3 if spec["kind"] == "Prism" else len(spec["n"]))
 
 
 def _emit(out, spec, K, part, aset, per_case):
     nb = G.num_boundary_faces(spec)
     dim = _dim(spec)
-    size = (1 << nb) if aset == "all" else (1 << (2 * dim)) + 2 * nb + nb * (nb - 1)
+    size = (1 << nb) if aset == "all" else (1 << (2 * dim)) + 2 * nb + (nb * (nb - 1) if aset == "flip2" else 0)
     nch = max(1, (size + per_case - 1) // per_case)
     for i in range(nch):
         out.append({"grid": spec, "K": K, "part": part, "aset": aset, "chunk": [i, nch]})
@@ -125,6 +126,14 @@ def cases(tier):
     for spec in (dict(T22, scale=1e-3), c22(scale=1e3)):
         for K in KS_ORTH:
             _emit(out, spec, K, "K", "all", 128)
+    # 3-d letters with quadrilateral faces (and Neumann faces carrying non-zero flux in the exactness part)
+    c222q = {"kind": "C", "n": [2, 2, 2]}
+    for spec in (c222q, dict(c222q, affine="shear"), T222, {"kind": "Prism", "n": [1, 1], "z": [0, 1, 2.5]}):
+        for K in KS_ALL:
+            _emit(out, spec, K, "S", "flip1", 1024)
+    for spec in (c222q, T222):
+        for K in KS_ORTH:
+            _emit(out, spec, K, "K", "flip1", 40)
     if tier == "thorough":
         for spec in (dict(T222, periodic=[2]), dict(T222, periodic=[0, 1])):
             for K in KS_ALL:
@@ -286,7 +295,7 @@ def run_case(case) -> Outcome:
     if case["aset"] == "all":
         masks = G.all_assignments(nb)
     else:
-        masks = G.flip_assignments(info["side"], dim, pairs=True)
+        masks = G.flip_assignments(info["side"], dim, pairs=(case["aset"] == "flip2"))
     i, nch = case["chunk"]
     masks = masks[i::nch]
     nmax, hmin, xmax = F.geom_scales(g)
